@@ -187,6 +187,8 @@ func vDurNs(d *vDur) int64 {
 type vGen struct {
 	r    *vRng
 	big  bool // this configuration may use durations above 2^53 ns (global form only: Caddy's own JSONModuleObject, used for listener wrappers, goes through float64)
+	optShuffle bool // option lines inside module blocks are written in a random order
+	shuffled   int
 	full bool // this configuration may use the modules outside the Coq model (tls/http/quic matchers, tls handler, decimal rates)
 }
 
@@ -503,6 +505,70 @@ var vMatcherKinds = []string{"ssh", "xmpp", "postgres", "proxy_protocol", "socks
 	"wireguard", "winbox", "remote_ip", "local_ip", "dns", "rdp", "openvpn", "tls", "http", "quic"}
 
 func (g *vGen) matcherLeaf(kind string) *vLeaf {
+	l := g.matcherLeaf0(kind)
+	g.shuffleOpts(l.seg)
+	return l
+}
+func (g *vGen) handlerLeaf(kind string) *vLeaf {
+	l := g.handlerLeaf0(kind)
+	g.shuffleOpts(l.seg)
+	return l
+}
+
+// option order inside a module's block is free (every UnmarshalCaddyfile is a loop over the block's
+// lines): in optShuffle mode the lines of every block of a leaf (also nested: upstream,
+// connection_policy) are permuted; lines with the same option name keep their relative order
+// (appending options, upstream order, connection_policy order, dns allow/deny rule order)
+func (g *vGen) shuffleOpts(s *vSeg) {
+	if !g.optShuffle {
+		return
+	}
+	if n := len(s.body); n > 1 {
+		group := func(b *vSeg) string {
+			if len(b.ws) == 0 {
+				return ""
+			}
+			return strings.TrimSuffix(b.ws[0], "_regexp")
+		}
+		perm := make([]int, n)
+		for i := range perm {
+			perm[i] = i
+		}
+		for i := n - 1; i > 0; i-- {
+			j := g.r.Intn(i + 1)
+			perm[i], perm[j] = perm[j], perm[i]
+		}
+		byGroup := map[string][]int{} // positions (in the new order) holding members of a group
+		for pos, idx := range perm {
+			k := group(s.body[idx])
+			byGroup[k] = append(byGroup[k], pos)
+		}
+		for _, poss := range byGroup {
+			vals := make([]int, len(poss))
+			for i, p := range poss {
+				vals[i] = perm[p]
+			}
+			sort.Ints(vals)
+			for i, p := range poss {
+				perm[p] = vals[i]
+			}
+		}
+		nb := make([]*vSeg, n)
+		changed := false
+		for pos, idx := range perm {
+			nb[pos] = s.body[idx]
+			changed = changed || pos != idx
+		}
+		if changed {
+			s.body = nb
+			g.shuffled++
+		}
+	}
+	for _, b := range s.body {
+		g.shuffleOpts(b)
+	}
+}
+func (g *vGen) matcherLeaf0(kind string) *vLeaf {
 	switch kind {
 	case "ssh":
 		return vBare("ssh", "MSsh")
@@ -845,7 +911,7 @@ func (g *vGen) upstream() (*vSeg, map[string]any, string) {
 	ls := vCat(vLineMulti("dial", dial, 1), vLineOpt("max_connections", vIntStr(mc)))
 	var tlsj any
 	tlsc := "None"
-	if g.chance(40) {
+	if g.chance(40) || (g.optShuffle && g.chance(50)) {
 		ins := g.chance(50)
 		var sn, re *string
 		if g.chance(50) {
@@ -883,7 +949,7 @@ func (g *vGen) upstream() (*vSeg, map[string]any, string) {
 		fmt.Sprintf("Upstream %s %s %s %s", cStrs(args), cStrs(dial), cOptZ(mc), tlsc)
 }
 
-func (g *vGen) handlerLeaf(kind string) *vLeaf {
+func (g *vGen) handlerLeaf0(kind string) *vLeaf {
 	switch kind {
 	case "echo":
 		return &vLeaf{name: "echo", seg: vLine("echo"), js: map[string]any{}, coq: "HEcho", modelled: true}
@@ -986,6 +1052,11 @@ func (g *vGen) handlerLeaf(kind string) *vLeaf {
 		pct := 30
 		if simple {
 			pct = 0
+		}
+		if g.optShuffle && g.chance(60) {
+			// blocks mixing option groups that share a lazily allocated parent struct
+			// (health_checks.active/passive, load_balancing): well populated, in random order
+			pct = 75
 		}
 		hi, ht := g.optDur(pct), g.optDur(pct)
 		if hi != nil && hi.ns() < 1000000000 { // keep the checker goroutine quiet during Validate
@@ -1886,6 +1957,7 @@ func TestVerifC15(t *testing.T) {
 		g.full = i%3 == 2
 		g.big = !lw && i%10 == 5
 		vSplit, vSplits = nil, 0
+		g.optShuffle, g.shuffled = i%2 == 1, 0
 		if i%5 == 1 {
 			vSplit = g.r
 		}
@@ -1957,6 +2029,10 @@ func TestVerifC15(t *testing.T) {
 		if vSplits > 0 {
 			canonical = false
 			counts["with-repeated-options"]++
+		}
+		if g.shuffled > 0 {
+			canonical = false
+			counts["with-shuffled-option-order"]++
 		}
 		vSplit = nil
 		res := vAdapt(text)
